@@ -16,7 +16,7 @@ func init() {
 	Register(&Rule{
 		ID:    "R-WIRESIB",
 		Doc:   "each proto codec{wire: W} sizes/encodes/decodes through W's primitive (varint: decodeVarint, fixed32: decodeLE32, fixed64: decodeLE64, varlen: decodeVarlen/window) and returns that primitive's byte count; tag shift/mask constants agree (3, 7)",
-		Props: []string{"C03", "C07", "C12"},
+		Props: []string{"C03", "C07", "C12", "C19"},
 		Min:   map[string]int{"C03": 20, "C07": 12, "C12": 20},
 		Run:   runWireSib,
 	})
@@ -221,7 +221,7 @@ func runWireSib(c *core.Ctx) []core.Obligation {
 	if len(shifts) == 1 && len(shifts[3]) > 0 && len(masks) == 1 && len(masks[7]) > 0 {
 		b.ok("tag-constants", c.FuncPos(protoFn(c, "encodeTag")), fmt.Sprintf("tag = number<<3 | type&7 in %v and %v", shifts[3], masks[7]))
 	} else {
-		b.bad("tag-constants", c.FuncPos(protoFn(c, "encodeTag")), fmt.Sprintf("tag arithmetic disagrees with number<<3|wiretype: shifts %v masks %v", shifts, masks))
+		b.addP([]string{"C03", "C07", "C12", "C19"}, core.Violation, "tag-constants", c.FuncPos(protoFn(c, "encodeTag")), fmt.Sprintf("tag arithmetic disagrees with number<<3|wiretype: shifts %v masks %v", shifts, masks))
 	}
 	return b.out
 }
